@@ -193,7 +193,7 @@ def run(ck, replay=None):
     miri_ok = miri_warm(ck, "c10")
     if miri_ok:
         if quick:
-            small, part, samp_jobs, samp_mod = (2, 2), 12, 3, 1200
+            small, part, samp_jobs, samp_mod = (2, 2), 12, 3, 1500
         else:
             small, part, samp_jobs, samp_mod = (3, 2), 16, 32, 300
         for i in range(part):
@@ -202,7 +202,7 @@ def run(ck, replay=None):
         for i in range(samp_jobs):
             add("miri", "miri exh ulen=6 plen=4 sample res=%d mod=%d" % (i, samp_mod),
                 miri_job("c10", ["exh", seed, 0, 6, 4, samp_mod, i], 3000))
-        add("miri", "miri rand", miri_job("c10", ["rand", seed, 20 if quick else 40, 120], 3000))
+        add("miri", "miri rand", miri_job("c10", ["rand", seed, 8 if quick else 40, 120], 3000))
         if not quick:
             for i in range(7):
                 add("miri", "miri rand %d" % i, miri_job("c10", ["rand", seed * 100 + i, 30, 300], 3000))
